@@ -28,6 +28,13 @@ var inv31 = func() uint64 {
 	return x
 }()
 
+// ZeroSum is the element sum of every non-empty spec whose identity is 0, the identity of an empty
+// spec (seed + fold*ZeroSum == 0 mod 2^64).
+func ZeroSum() uint64 {
+	var zero uint64
+	return (zero - seed) * inv31
+}
+
 func finite(bits uint64) bool {
 	f := math.Float64frombits(bits)
 	return !math.IsNaN(f) && !math.IsInf(f, 0)
